@@ -4,6 +4,7 @@ import LlirModel.Drv.WriterOps
 import LlirModel.Drv.EnumOps
 import LlirModel.Drv.TypeOps
 import LlirModel.Drv.TypingOps
+import LlirModel.Drv.NumOps
 open Llir Llir.Drv
 
 def dispatch (op : String) (args : List String) : String :=
@@ -23,6 +24,9 @@ def dispatch (op : String) (args : List String) : String :=
   | some r => r
   | none =>
   match typingOps op args with
+  | some r => r
+  | none =>
+  match numOps op args with
   | some r => r
   | none => "unknown-op"
 
